@@ -165,6 +165,7 @@ func explore() {
 	states := map[string]bool{}
 	seenOracle := map[string]int{}
 	t0 := realNow()
+	leakedTotal := 0
 	for i := uint64(0); i < count; i++ {
 		if budget > 0 && realNow()-t0 > budget {
 			break
@@ -210,6 +211,12 @@ func explore() {
 			if len(res.Samples) < 3 && ep.Sample != nil {
 				res.Samples = append(res.Samples, ep.Sample)
 			}
+		}
+		leakedTotal += ep.LeakedGoroutines
+		if leakedTotal > 400 && !leak {
+			// hertz goroutines that never end (one FS cache cleaner per FS object): recycle the process
+			res.Leak = true
+			break
 		}
 		if leak {
 			res.Leak = true
